@@ -72,10 +72,15 @@ class Report:
             self.samples.append(obj)
 
     # ------------------------------------------------------------------
+    def unlisted(self):
+        """the violations that are not listed as known findings of this property (what a run fails on)"""
+        listed = {f["key"] for f in load_known() if f.get("property") == self.pid and f.get("status") == "known"}
+        return [v for v in self.violations if v["key"] not in listed]
+
     def finish(self, tree, checker_cmd, min_obligations=0, write=True):
         from .srcmodel import AnalysisError
         n_ob = len(self.obligations)
-        if n_ob < min_obligations and not (self.violations and self.extra.get("incomplete")):
+        if n_ob < min_obligations and not (self.unlisted() and self.extra.get("incomplete")):
             # (an evaluation that stopped early AFTER it had established a violation reports that violation: fewer obligations are expected)
             raise AnalysisError("only %d obligations were generated, %d expected at least "
                                 "(a rule matching no site never passes)" % (n_ob, min_obligations))
